@@ -362,6 +362,7 @@ pub fn run(ctx: &Ctx) -> Verdict {
 }
 
 pub fn replay(sub: &str, case: Value) -> Result<(), String> {
+    #[cfg(any(feature = "std", feature = "nostd-spin"))]
     if sub.starts_with("racing") {
         return super::c10::replay(sub, case);
     }
